@@ -17,7 +17,8 @@ a = ap.parse_args()
 src = ("/tmp/seed/%s/out" if a.round == 1 else "/tmp/seed%d/%%s/out" % a.round) % a.prop
 label = a.which if a.round == 1 else chr(ord(a.which) + 2 * (a.round - 1))
 patch, demo, notes = [os.path.join(src, "%s%s" % (a.which, s)) for s in (".diff", "_demo.py", "_notes.md")]
-meta = {"property": a.prop, "variant": label, "round": a.round, "ran": []}
+meta = {"property": a.prop, "variant": label, "round": a.round, "ran": [],
+        "repo_head": subprocess.check_output(["git", "-C", "/repo", "rev-parse", "--short", "HEAD"]).decode().strip()}
 wt = tempfile.mkdtemp(prefix="vf-seed-", dir="/tmp"); os.rmdir(wt)
 subprocess.check_call(["git", "-C", "/repo", "worktree", "add", "--detach", "-q", wt])
 env = dict(os.environ, PYTHONDONTWRITEBYTECODE="1", PYTHONPATH=os.path.join(wt, "src"))
